@@ -60,6 +60,10 @@ def list_pos(n, length):
     return None
 
 
+class SizeLimit(Exception):
+    pass
+
+
 class Interp:
     def __init__(self, max_steps=200000):
         self.scopes = [{"_প্ল্যাটফর্ম": "linux"}]
@@ -70,6 +74,13 @@ class Interp:
         self.steps -= 1
         if self.steps < 0:
             raise StepLimit()
+
+    def grow(self, n):
+        """size budget: a program whose strings / lists grow without bound (e.g. doubling in a loop) is not a test
+        case — it would exhaust the memory of the oracle, the model and the implementation alike"""
+        self.budget = getattr(self, "budget", 4000000) - n
+        if self.budget < 0:
+            raise SizeLimit()
 
     # ---- values ------------------------------------------------------------------------
     def lookup(self, name):
@@ -210,8 +221,10 @@ class Interp:
             if isnum(l) and isnum(r):
                 return l + r if op == "+" else l - r
             if isinstance(l, str) and isinstance(r, str) and op == "+":
+                self.grow(len(l) + len(r))
                 return l + r
             if isinstance(l, Ref) and isinstance(r, Ref) and l.kind == "list" and r.kind == "list" and op == "+":
+                self.grow(len(l.data) + len(r.data))
                 return Ref("list", list(l.data) + list(r.data))
             raise PakhiError("type", op)
         if isnum(l) and isnum(r):
@@ -494,6 +507,8 @@ def run(prog, max_steps=200000):
         st = ("err", e.cls, e.msg)
     except StepLimit:
         st = "steps"
+    except SizeLimit:
+        st = "toobig"
     except RecursionError:
         st = "steps"
     return "".join(it.out), st
